@@ -45,6 +45,11 @@ pub fn generate(r: &mut Rng, allow_slow_algs: bool) -> Gen {
         }
         assertions.push((label, payload(r)));
     }
+    // now and then the same label twice (reported as label and label__1, in this order)
+    if claim_version == 2 && !assertions.is_empty() && r.chance(1, 5) {
+        let l = assertions[0].0.clone();
+        assertions.push((l, payload(r)));
+    }
     let mut list: Vec<Value> = Vec::new();
     let action = if claim_version == 1 {
         json!({ "label": "c2pa.actions", "data": { "actions": [ { "action": "c2pa.created" } ] } })
